@@ -63,9 +63,10 @@ func (h *vfC12HookCtx) Value(key any) any {
 
 type vfC12ConnEv struct {
 	At      time.Duration
-	Kind    string // add | close
+	Kind    string // add | close | halfdead | closeout | flash
 	Name    string
 	Limited bool
+	Refuse  bool // add: the connection stays open but its muxer refuses to open streams
 }
 
 func vfC12Execute(t *testing.T, seed int64, tr *vfh.Trace) {
@@ -147,9 +148,11 @@ func vfC12Execute(t *testing.T, seed int64, tr *vfh.Trace) {
 	for i := 0; i < nin; i++ {
 		lim := rnd.Intn(2) == 0
 		name := fmt.Sprintf("i%d", i+1)
-		evs = append(evs, vfC12ConnEv{At: ms(rnd.Intn(1500)), Kind: "add", Name: name, Limited: lim})
+		evs = append(evs, vfC12ConnEv{At: ms(rnd.Intn(1500)), Kind: "add", Name: name, Limited: lim, Refuse: !lim && rnd.Intn(4) == 0})
 		if rnd.Intn(2) == 0 {
-			evs = append(evs, vfC12ConnEv{At: ms(1500 + rnd.Intn(1500)), Kind: "close", Name: name})
+			// "halfdead": the transport connection has died but the swarm has not noticed yet (its accept loop
+			// is woken only afterwards): a dead connection must not count for connectedness in that window
+			evs = append(evs, vfC12ConnEv{At: ms(1500 + rnd.Intn(1500)), Kind: []string{"close", "halfdead"}[rnd.Intn(2)], Name: name})
 		}
 	}
 	if rnd.Intn(2) == 0 {
@@ -254,6 +257,9 @@ func vfC12Execute(t *testing.T, seed int64, tr *vfh.Trace) {
 			switch e.Kind {
 			case "add", "flash":
 				stub := newVfStubConn(e.Name, local, remote, ma.StringCast("/ip4/127.0.0.1/tcp/1"), ma.StringCast("/ip4/5.6.7.8/tcp/999"), e.Limited)
+				if e.Refuse {
+					stub.OpenErr = errors.New("verif: muxer out of streams")
+				}
 				if e.Limited {
 					stub.Tpt = relay
 				} else {
@@ -278,12 +284,21 @@ func vfC12Execute(t *testing.T, seed int64, tr *vfh.Trace) {
 					tr.Emit("conn_close", "conn", e.Name, "t", r.now())
 					stub.RemoteClose()
 				}
-			case "close":
+			case "close", "halfdead":
 				imu.Lock()
 				stub := inboundIDs[e.Name]
 				imu.Unlock()
 				if stub != nil {
 					tr.Emit("conn_close", "conn", e.Name, "t", r.now())
+					if e.Kind == "halfdead" && !stub.IsClosed() {
+						stub.closed.Store(true) // dead, nobody told the swarm yet
+						ids, _, _ := openStubs()
+						if ids == nil {
+							ids = []string{}
+						}
+						st := map[network.Connectedness]string{network.Connected: "C", network.Limited: "L", network.NotConnected: "N"}[sw.Connectedness(remote)]
+						tr.Emit("probe_st", "st", st, "open", ids, "t", r.now())
+					}
 					stub.RemoteClose()
 				}
 			case "closeout":
